@@ -56,6 +56,23 @@ func H_C11_compare() {
 	shapeCode = -1
 	errAt := sxChoose("errat", m+1) - 1
 	weighted := sxParam("weighted", 0) == 1
+	if sxParam("symhash", 0) == 1 {
+		// arbitrary name hashes: every bucket layout of the shared split index
+		// (collisions included) is explored
+		sxOptN("tax-hash-bits", sxParam("hashbits", 1))
+		sxOpt("stub-tax-hash", true)
+	}
+	// distinct concrete lengths, so that a term that belongs to another tree is visible
+	for j, e := range ref.Edges() {
+		e.SetLength(float64(100 + j))
+	}
+	for i, c := range comps {
+		for j, e := range c.Edges() {
+			e.SetLength(float64(10*(i+1) + j))
+		}
+	}
+	rsplits := splitsOf(ref, lenAll)
+	fullm := fullMask(ref, nil)
 	R := innerSplitSet(ref)
 	type exp struct{ o1, o2, c int }
 	want := make([]exp, m)
@@ -93,7 +110,12 @@ func H_C11_compare() {
 	} else {
 		stats, err := tree.CompareWeighted(ref, c11chan(comps, errAt), false, false, cpus)
 		sxAssert(err == nil, "CompareWeighted starts")
+		// the records are collected first and examined afterwards
+		var recs []tree.WeightedBipartitionStats
 		for st := range stats {
+			recs = append(recs, st)
+		}
+		for _, st := range recs {
 			sxAssert(st.Id >= 0 && st.Id < m, "record id in range")
 			seen[st.Id]++
 			if st.Id == errAt {
@@ -102,6 +124,19 @@ func H_C11_compare() {
 			}
 			sxAssert(st.Err == nil, "no error for a valid tree")
 			sxAssert(len(st.Tree1) == want[st.Id].o1 && len(st.Tree2) == want[st.Id].o2 && len(st.Common) == want[st.Id].c, "per-tree terms equal the single-threaded result")
+			var wc, w2 []float64
+			for _, e := range comps[st.Id].Edges() {
+				if e.Right().Tip() {
+					continue
+				}
+				k := canonMask(maskBelow(e.Right(), e.Left(), nil), fullm)
+				if r, ok := rsplits[k]; ok {
+					wc = append(wc, r.length-e.Length())
+				} else {
+					w2 = append(w2, e.Length())
+				}
+			}
+			sxAssert(eqFloats(st.Common, wc) && eqFloats(st.Tree2, w2), "per-tree weighted terms are those of the tree's own branches")
 		}
 	}
 	for i := range seen {
